@@ -479,8 +479,8 @@ static void c03(Sink &sink, const Args &a, long c)
     sink.subject(pi.name);
     long rest = c / R.size();
     const int blockSize = 16;
-    const int nblocks = a.thorough() ? 33 : 5;       // k = 0..(nblocks-1)*16-1 exhaustively + one calibrated block
-    const int nworlds = a.thorough() ? 2 : 1;
+    const int nblocks = a.thorough() ? 33 : 9;       // k = 0..(nblocks-1)*16-1 exhaustively + one calibrated block
+    const int nworlds = a.thorough() ? 3 : 2;
     long nInterrupt = (long)nblocks * nworlds;
     if (rest < nInterrupt) c03Interrupt(sink, a, c, pi, rest % nblocks, rest / nblocks, nblocks, blockSize);
     else c03History(sink, a, c, pi, rest - nInterrupt);
@@ -963,7 +963,7 @@ int main(int argc, char **argv)
     void (*fn)(Sink &, const Args &, long) = nullptr;
     const long NP = registry().size();
     if (a.prop == "C01") total = NP * (a.thorough() ? 60 : 6), fn = c01;
-    else if (a.prop == "C03") total = NP * ((a.thorough() ? 33 * 2 : 5) + (a.thorough() ? 24 : 4)), fn = c03;
+    else if (a.prop == "C03") total = NP * ((a.thorough() ? 33 * 3 : 9 * 2) + (a.thorough() ? 60 : 12)), fn = c03;
     else if (a.prop == "C04")
     {
         g_c04PlannerCases = (long)(optPlanners().size() * 5 * (a.thorough() ? 9 : 1) * a.scale);
